@@ -63,19 +63,19 @@ func (p *process) Invoke(msgs []Envelope) {
 		nmsg = len(msgs)
 		// numbers of msgs that are processed.
 		nproc = 0
-		// FIXME: We could use nrpoc here, but for some reason placing nproc++ on the
-		// bottom of the function it freezes some tests. Hence, I created a new counter
-		// for bookkeeping.
-		processed = 0
+		// the graceful poison pill whose backlog is being drained, if any.
+		draining *Envelope
 	)
 	defer func() {
 		// If we recovered, we buffer up all the messages that we could not process
-		// so we can retry them on the next restart.
+		// so we can retry them on the next restart. A graceful poison pill that was
+		// draining its backlog goes back in front of them, so the stop still happens.
 		if v := recover(); v != nil {
-			p.mbuffer = make([]Envelope, nmsg-nproc)
-			for i := 0; i < nmsg-nproc; i++ {
-				p.mbuffer[i] = msgs[i+nproc]
+			p.mbuffer = make([]Envelope, 0, nmsg-nproc+1)
+			if draining != nil {
+				p.mbuffer = append(p.mbuffer, *draining)
 			}
+			p.mbuffer = append(p.mbuffer, msgs[nproc:]...)
 			p.tryRestart(v)
 		}
 	}()
@@ -87,16 +87,17 @@ func (p *process) Invoke(msgs []Envelope) {
 			// If we need to gracefuly stop, we process all the messages
 			// from the inbox, otherwise we ignore and cleanup.
 			if pill.graceful {
-				msgsToProcess := msgs[processed:]
-				for _, m := range msgsToProcess {
+				draining = &msgs[i]
+				for _, m := range msgs[i+1:] {
+					nproc++
 					p.invokeMsg(m)
 				}
+				draining = nil
 			}
 			p.cleanup(pill.cancel)
 			return
 		}
 		p.invokeMsg(msg)
-		processed++
 	}
 }
 
